@@ -40,6 +40,8 @@ class Report:
         self.notes = []
         self.exhaustive = False
         self.extra = {}
+        self.known = []          # (predicate name, text) of the known: lines for this property
+        self.known_hits = {}
 
     def count(self, key, n=1):
         self.dist[key] = self.dist.get(key, 0) + n
@@ -58,6 +60,17 @@ class Report:
         self.count('disagreements')
 
     def violate(self, case, detail):
+        # known findings are recognised at once so that they can never crowd a new violation out of the kept list
+        for name, text in self.known:
+            pred = getattr(findings, name, None)
+            try:
+                hit = bool(pred and pred(case, detail))
+            except Exception:
+                hit = False
+            if hit:
+                self.known_hits[(name, text)] = self.known_hits.get((name, text), 0) + 1
+                self.count('known_finding_cases')
+                return
         if len(self.violations) < 50:
             self.violations.append(dict(case=case, detail=detail))
         self.count('direct_violations')
@@ -110,34 +123,46 @@ def hygiene():
 
 
 def proof_step(prop):
-    """Fresh coqc of props/<prop>.v.  Returns dict(ok, obligations, discharged, theorems, assumptions, log)."""
-    src = '%s/props/%s.v' % (COQ, prop)
-    text = open(src).read()
-    theorems = re.findall(r'^\s*Theorem\s+(\w+)', text, re.M)
+    """Fresh coqc of every props/<prop>*.v (e.g. C14.v and C14om.v).  Returns dict(ok, obligations, discharged, ...)."""
+    import glob
+    files = sorted(glob.glob('%s/props/%s*.v' % (COQ, prop)))
+    theorems, blocks, logs = [], [], []
+    rc_all = 0
     t0 = time.time()
-    rc0, out0 = sh('timeout 3000 make props/%s.vo 2>&1 | tail -30' % prop, cwd=COQ)   # dependencies up to date
-    rc, out = sh('timeout 1800 coqc -Q . V props/%s.v' % prop, cwd=COQ)
-    if rc != 0:
-        out = out0 + out
-    blocks = []
-    cur = None
-    for line in out.split('\n'):
-        if line.startswith('Closed under the global context'):
-            blocks.append([])
-            cur = None
-        elif line.startswith('Axioms:'):
-            cur = []
-            blocks.append(cur)
-        elif cur is not None and line.strip():
-            if re.match(r'^\S', line):
-                cur.append(line.split(':')[0].strip())
+    for src in files:
+        base = os.path.basename(src)[:-2]
+        text = open(src).read()
+        ths = re.findall(r'^\s*Theorem\s+(\w+)', text, re.M)
+        theorems += ths
+        rc0, out0 = sh('timeout 3000 make props/%s.vo 2>&1 | tail -30' % base, cwd=COQ)   # dependencies up to date
+        rc, out = sh('timeout 1800 coqc -Q . V props/%s.v' % base, cwd=COQ)
+        if rc != 0:
+            rc_all = rc
+            logs.append(out0 + out)
+        nb = 0
+        cur = None
+        for line in out.split('\n'):
+            if line.startswith('Closed under the global context'):
+                blocks.append([])
+                nb += 1
+                cur = None
+            elif line.startswith('Axioms:'):
+                cur = []
+                blocks.append(cur)
+                nb += 1
+            elif cur is not None and line.strip():
+                if re.match(r'^\S', line):
+                    cur.append(line.split(':')[0].strip())
+        if rc == 0 and nb < len(ths):
+            rc_all = rc_all or 1
+            logs.append('%s: %d theorems but %d Print Assumptions results' % (base, len(ths), nb))
     axioms = sorted({a for b in blocks for a in b})
     allowed = ALLOWED_AXIOMS.get(prop, set())
     bad_axioms = [a for a in axioms if a not in allowed]
-    ok = rc == 0 and len(blocks) >= len(theorems) and not bad_axioms
-    return dict(ok=ok, rc=rc, obligations=len(theorems), discharged=len(theorems) if rc == 0 else 0,
-                theorems=theorems, axioms=axioms, bad_axioms=bad_axioms, log=out[-3000:],
-                secs=round(time.time() - t0, 1))
+    ok = bool(files) and rc_all == 0 and not bad_axioms
+    return dict(ok=ok, rc=rc_all, obligations=max(1, len(theorems)), discharged=len(theorems) if rc_all == 0 else 0,
+                theorems=theorems, axioms=axioms, bad_axioms=bad_axioms, log='\n'.join(logs)[-3000:],
+                secs=round(time.time() - t0, 1), files=[os.path.basename(f) for f in files])
 
 
 def load_known(prop):
@@ -297,7 +322,7 @@ def main(argv):
     if build_ok and not a.no_proof:
         pr = proof_step(prop)
     else:
-        pr = dict(ok=False, rc=rc, obligations=max(1, len(re.findall(r'^\s*Theorem', open('%s/props/%s.v' % (COQ, prop)).read(), re.M))),
+        pr = dict(ok=False, rc=rc, obligations=1,
                   discharged=0, theorems=[], axioms=[], bad_axioms=[], log=blog[-3000:], secs=0)
     proof_ok = build_ok and pr['ok'] and not hyg
 
@@ -306,6 +331,7 @@ def main(argv):
     budget = getattr(mod, 'TIME_BUDGET', {'quick': 120, 'thorough': 1500})[tier]
     ctx.deadline = time.time() + budget
     rep = Report(prop, tier, seed)
+    rep.known = load_known(prop)[0]
     harness_error = None
     try:
         if build_ok:
@@ -330,20 +356,8 @@ def main(argv):
     # ---- triage ----
     known, fixed = load_known(prop)
     out_lines = []
-    new_violations = []
-    known_hit = {}
-    for v in rep.violations:
-        hit = None
-        for name, text in known:
-            pred = getattr(findings, name, None)
-            if pred and pred(v['case'], v['detail']):
-                hit = (name, text)
-                break
-        if hit:
-            known_hit.setdefault(hit, 0)
-            known_hit[hit] += 1
-        else:
-            new_violations.append(v)
+    new_violations = list(rep.violations)
+    known_hit = dict(rep.known_hits)
     for (name, text), n in known_hit.items():
         out_lines.append('KNOWN-FINDING: property=%s %s' % (prop, text))
 
@@ -425,7 +439,7 @@ def main(argv):
     tb += list(getattr(mod, 'TRUSTED', []))
     cov = dict(
         obligations=pr['obligations'], discharged=pr['discharged'],
-        checker_cmd='cd /verif/coq && make (full .vo build) && coqc -Q . V props/%s.v' % prop,
+        checker_cmd='cd /verif/coq && make (full .vo build) && for f in props/%s*.v; do coqc -Q . V $f; done' % prop,
         trusted_base=tb,
         theorems=pr.get('theorems', []),
         evaluations=rep.evaluations, distinct_nontrivial=len(rep.nontrivial),
